@@ -10,17 +10,18 @@ from .common import func_params, value_returns, last_return, XLERR, XLT, raise_c
 
 PROPERTY = 'C20'
 EXPLANATION = (
-    'Decided from source: (C20.1) library binding: each Excel parameter of PV/PMT reaches the numpy-financial '
-    'parameter of the same meaning, IRR hands over all of its flattened cash flows, no cash-flow list is filtered '
-    "by truthiness (known finding F38 for XIRR/XNPV), and _xirr interpreted with a recording model of scipy's "
-    'newton hands over r -> _xnpv(r, values, dates) and starts at the guess; (C20.2) every parameter of '
-    'IRR/NPV/PMT/PV/SLN/XIRR/XNPV is in the backward slice of every value-returning return; (C20.3) '
-    'reflected-operator hazard: no non-commutative operator with a possibly-native left operand and a value-class '
-    'right operand (positive control: VDB); (C20.4) the XIRR/XNPV length-mismatch guard dominates the computation '
-    'and gives #NUM!, non-convergence is converted to #NUM!; (C20.5) XNPV discounts by (1+rate)^((d_i-d_0)/365), '
-    'SLN = (cost-salvage)/life; (C20.6) NPV on witness flows incl. zero flows first, in the middle and last, and '
-    'SLN, as the evaluator calls them: a zero flow occupies a period.'
-    " (C20.7) a witness workbook: XNPV equals its closed form, is linear in the flows and a plain sum at rate 0, XIRR returns the root of the closed form (scipy's secant iteration modelled by its documented algorithm) - dates as serials around 60, fractional serials and dates built by DATE.")
+    'Decided from source: (C20.1) library binding: each Excel parameter of PV/PMT reaches the numpy-financial parameter of '
+    'the same meaning, IRR hands over all of its flattened cash flows, no cash-flow list is filtered by truthiness (known '
+    "finding F38 for XIRR/XNPV), and _xirr interpreted with a recording model of scipy's newton hands over r -> _xnpv(r, "
+    'values, dates) and starts at the guess; (C20.2) every parameter of IRR/NPV/PMT/PV/SLN/XIRR/XNPV is in the backward '
+    'slice of every value-returning return; (C20.3) reflected-operator hazard: no non-commutative operator with a possibly-'
+    'native left operand and a value-class right operand (positive control: VDB); (C20.4) a witness workbook: flows and '
+    'dates of different lengths give #NUM! for XNPV and XIRR in both directions, a rate of -1 or below does not end in a '
+    'Python exception; (C20.5) SLN = (cost-salvage)/life on witness triples; (C20.6) NPV on witness flows incl. zero flows '
+    'first, in the middle and last, and SLN, as the evaluator calls them: a zero flow occupies a period. (C20.7) a witness '
+    'workbook: XNPV equals its closed form, is linear in the flows and a plain sum at rate 0, XIRR returns the root of the '
+    "closed form (scipy's secant iteration modelled by its documented algorithm) - dates as serials around 60, fractional "
+    'serials and dates built by DATE.')
 NOT_DECIDED = ("numeric accuracy of numpy / numpy_financial beyond the witness rows; what scipy's iteration returns when no root exists or the "
                "iteration leaves the domain (the conversion of its RuntimeError to #NUM! is not witnessed)")
 TRUSTED = ['numpy_financial.pv/pmt/irr parameter conventions', 'scipy.optimize.newton signature', 'workbook scenarios: pandas storage of range arrays as row-major rows, numpy on Python numbers (IEEE results, 64-bit integer wrap), dateutil.parser.parse rejecting texts that are no dates, openpyxl address arithmetic, inspect.signature built from the FunctionDef', "scipy.optimize.newton without derivative = the library's secant iteration", 'pandas DataFrame from a dict of lists: column access, boolean-mask rows, stable sort_values']
